@@ -1,3 +1,399 @@
 package checks
 
-func c10Worker(args []string) int { return 2 }
+import (
+	"bufio"
+	"bytes"
+	"encoding/json"
+	"fmt"
+	"os"
+	"os/exec"
+	"regexp"
+	"runtime"
+	"runtime/debug"
+	"strconv"
+	"strings"
+	"sync"
+	"syscall"
+	"time"
+
+	"github.com/gogpu/naga"
+	"github.com/gogpu/naga/dxil"
+	"github.com/gogpu/naga/glsl"
+	"github.com/gogpu/naga/hlsl"
+	"github.com/gogpu/naga/ir"
+	"github.com/gogpu/naga/msl"
+	"github.com/gogpu/naga/spirv"
+	"github.com/gogpu/naga/wgsl"
+
+	"verif/internal/explore"
+	"verif/internal/wgen"
+)
+
+func init() { Registry["C10"] = runC10 }
+
+// c10Generators is deterministic in the tier, so parent and workers agree on indices.
+func c10Generators(thorough bool) []c10Gen {
+	seeds := append([]wgen.Micro{}, wgen.Micros...)
+	f1 := wgen.F1()
+	for _, i := range []int{0, 700, 1500, 2300, 3100} {
+		c := f1.At(i % f1.Count)
+		seeds = append(seeds, wgen.Micro{Name: c.Sig, Src: wgen.Print(c.Mod)})
+	}
+	f2 := wgen.F2(3, false)
+	for _, i := range []int{5000, 40000, 90000} {
+		c := f2.At(i % f2.Count)
+		seeds = append(seeds, wgen.Micro{Name: c.Sig, Src: wgen.Print(c.Mod)})
+	}
+	corp := corpus()
+	small := seeds[:6]
+	var gens []c10Gen
+	gens = append(gens, genLadders())
+	if thorough {
+		gens = append(gens, genTokenStrings(5))
+		gens = append(gens, genTokenEdits(append(seeds, corp...), false))
+		gens = append(gens, genTokenEdits(small, true))
+		gens = append(gens, genByteEdits(seeds))
+		gens = append(gens, genValid([]*wgen.Family{f1, wgen.F2(3, false), wgen.F2(5, true)}, append(append([]wgen.Micro{}, wgen.Micros...), corp...)))
+	} else {
+		gens = append(gens, genTokenStrings(4))
+		gens = append(gens, genTokenEdits(seeds, false))
+		gens = append(gens, genByteEdits(small))
+		gens = append(gens, genValid([]*wgen.Family{f1, wgen.F2(2, false)}, append(append([]wgen.Micro{}, wgen.Micros...), corp...)))
+	}
+	return gens
+}
+
+var nagaFrame = regexp.MustCompile(`github\.com/gogpu/naga/\S+`)
+
+// topNagaFrame extracts the innermost naga function from a Go stack trace.
+func topNagaFrame(stack string) string {
+	for _, ln := range strings.Split(stack, "\n") {
+		if strings.Contains(ln, "verif/internal") {
+			continue
+		}
+		if m := nagaFrame.FindString(ln); m != "" && !strings.HasPrefix(ln, "\t") {
+			m = strings.TrimPrefix(m, "github.com/gogpu/naga/")
+			if i := strings.LastIndex(m, "("); i > 0 { // drop the argument list
+				m = m[:i]
+			}
+			return m
+		}
+	}
+	return "?"
+}
+
+type c10Panic struct {
+	Stage string `json:"stage"`
+	Msg   string `json:"msg"`
+	Frame string `json:"frame"`
+	Stack string `json:"stack"`
+}
+
+// c10RunOne pushes one source through every public entry point. Returns recovered panics.
+func c10RunOne(src string) (panics []c10Panic) {
+	stage := "tokenize"
+	guard := func(st string, f func()) {
+		stage = st
+		defer func() {
+			if r := recover(); r != nil {
+				stk := string(debug.Stack())
+				panics = append(panics, c10Panic{Stage: stage, Msg: fmt.Sprint(r), Frame: topNagaFrame(stk), Stack: stk})
+			}
+		}()
+		f()
+	}
+	guard("tokenize", func() { wgsl.NewLexer(src).Tokenize() })
+	guard("compile", func() { naga.Compile(src) })
+	var m *ir.Module
+	guard("parse+lower", func() {
+		ast, err := naga.Parse(src)
+		if err != nil {
+			return
+		}
+		mm, err := naga.LowerWithSource(ast, src)
+		if err == nil {
+			m = mm
+		}
+	})
+	if m == nil {
+		return
+	}
+	guard("validate", func() { naga.Validate(m) })
+	guard("spirv", func() { naga.GenerateSPIRV(m, spirv.DefaultOptions()) })
+	guard("spirv1.0", func() { naga.GenerateSPIRV(m, spirv.Options{Version: spirv.Version1_0, Debug: true}) })
+	guard("hlsl", func() { hlsl.Compile(m, hlsl.DefaultOptions()) })
+	guard("msl", func() {
+		o := msl.DefaultOptions()
+		o.FakeMissingBindings = true
+		msl.Compile(m, o)
+	})
+	for i := range m.EntryPoints {
+		name := m.EntryPoints[i].Name
+		guard("glsl", func() {
+			o := glsl.DefaultOptions()
+			o.LangVersion = glsl.Version450
+			o.EntryPoint = name
+			glsl.Compile(m, o)
+		})
+	}
+	guard("glsl330", func() {
+		o := glsl.DefaultOptions()
+		if len(m.EntryPoints) > 0 {
+			o.EntryPoint = m.EntryPoints[0].Name
+		}
+		glsl.Compile(m, o)
+	})
+	guard("dxil", func() { dxil.Compile(m, dxil.DefaultOptions()) })
+	return
+}
+
+// ---------------------------------------------------------------- worker process
+
+func c10Worker(args []string) int {
+	// args: tier gen shard nshards start
+	thorough := args[0] == "thorough"
+	g, _ := strconv.Atoi(args[1])
+	shard, _ := strconv.Atoi(args[2])
+	n, _ := strconv.Atoi(args[3])
+	start, _ := strconv.Atoi(args[4])
+	gen := c10Generators(thorough)[g]
+	out := os.Stdout
+	for k := start; ; k++ {
+		idx := shard + k*n
+		if idx >= gen.Count {
+			break
+		}
+		fmt.Fprintf(out, "@ %d\n", k)
+		src := gen.At(idx)
+		for _, p := range c10RunOne(src) {
+			b, _ := json.Marshal(p)
+			fmt.Fprintf(out, "P %d %s\n", k, b)
+		}
+	}
+	fmt.Fprintln(out, "D")
+	return 0
+}
+
+// ---------------------------------------------------------------- parent
+
+func procCPU(pid int) float64 {
+	b, err := os.ReadFile(fmt.Sprintf("/proc/%d/stat", pid))
+	if err != nil {
+		return -1
+	}
+	// fields after the last ')'
+	s := string(b)
+	i := strings.LastIndex(s, ")")
+	f := strings.Fields(s[i+1:])
+	if len(f) < 14 {
+		return -1
+	}
+	ut, _ := strconv.ParseFloat(f[11], 64)
+	st, _ := strconv.ParseFloat(f[12], 64)
+	return (ut + st) / 100.0
+}
+
+func runC10() int {
+	r := explore.New("C10")
+	thorough := r.Thorough()
+	cpuCap := 10.0
+	if thorough {
+		cpuCap = 120.0
+	}
+	if v := os.Getenv("VERIF_C10_CPUCAP"); v != "" {
+		cpuCap, _ = strconv.ParseFloat(v, 64)
+	}
+	memKiB := 4 * 1024 * 1024
+	gens := c10Generators(thorough)
+	self, _ := os.Executable()
+	nshards := runtime.GOMAXPROCS(0)
+	tier := "quick"
+	if thorough {
+		tier = "thorough"
+	}
+	for g, gen := range gens {
+		t0 := time.Now()
+		defer func(name string) { _ = name }(gen.Name)
+		r.Extra("inputs_"+gen.Name, gen.Count)
+		r.Count("evaluations", int64(gen.Count))
+		var wg sync.WaitGroup
+		for s := 0; s < nshards; s++ {
+			wg.Add(1)
+			go func(s int) {
+				defer wg.Done()
+				start := 0
+				for {
+					done, last := c10RunShard(r, self, tier, g, gen, s, nshards, start, cpuCap, memKiB)
+					if done {
+						return
+					}
+					start = last + 1
+				}
+			}(s)
+		}
+		wg.Wait()
+		r.Extra("wall_s_"+gen.Name, time.Since(t0).Seconds())
+	}
+	r.Extra("cpu_cap_s", cpuCap)
+	r.Sample(map[string]any{"generator": "ladders", "label": gens[0].Label(3), "source_prefix": trunc(gens[0].At(3), 160)})
+	r.Sample(map[string]any{"generator": gens[1].Name, "label": gens[1].Label(12345 % gens[1].Count), "source": gens[1].At(12345 % gens[1].Count)})
+	r.Sample(map[string]any{"generator": gens[2].Name, "label": gens[2].Label(777 % gens[2].Count)})
+	printKeys(r)
+	return r.Finish("every token string up to length L over a 24-token alphabet in 3 contexts; every single-token edit (delete/duplicate/swap/replace by each alphabet token) at every token of every seed; every prefix and every byte substitution from a hostile byte set at every offset of the small seeds; parametric ladders (nesting depth, chain length, object size) up to 64 KiB of source plus fixed cyclic/self-referential programs; all valid generated programs. Each input goes through tokenize, Compile, parse, lower, validate and all five backends in an isolated worker (ulimit -v 4 GiB, CPU-time cap). distinct = distinct (stage, panic message class, innermost naga frame) outcomes plus the clean outcome",
+		[]string{"a violation is a recovered panic, a worker death by Go fatal error (stack overflow, out of memory under the address-space limit), or more than the CPU-time cap spent on one input; slow-but-terminating inputs below the cap are not violations",
+			"coverage of 'all byte strings' is necessarily partial: what is exhausted is stated in rule"})
+}
+
+func trunc(s string, n int) string {
+	if len(s) > n {
+		return s[:n] + "..."
+	}
+	return s
+}
+
+// c10RunShard runs one worker; returns done=true when the shard finished, else the last index k it was working on.
+func c10RunShard(r *explore.Run, self, tier string, g int, gen c10Gen, shard, n, start int, cpuCap float64, memKiB int) (bool, int) {
+	if shard+start*n >= gen.Count {
+		return true, 0
+	}
+	cmdline := fmt.Sprintf("ulimit -v %d; exec %q worker c10 %s %d %d %d %d", memKiB, self, tier, g, shard, n, start)
+	cmd := exec.Command("sh", "-c", cmdline)
+	cmd.Env = append(os.Environ(), "GOMAXPROCS=2", "GOGC=50")
+	var stderr bytes.Buffer
+	cmd.Stderr = &limitedWriter{buf: &stderr, max: 1 << 20}
+	stdout, _ := cmd.StdoutPipe()
+	cmd.SysProcAttr = &syscall.SysProcAttr{Setpgid: true}
+	if err := cmd.Start(); err != nil {
+		fmt.Println("HARNESS-ERROR: cannot start worker:", err)
+		os.Exit(2)
+	}
+	var mu sync.Mutex
+	cur := start
+	killedForCPU := false
+	stop := make(chan struct{})
+	go func() {
+		// CPU-time watchdog: no wall-clock oracle. The worker's CPU time is sampled; if it grows by
+		// more than the cap while the worker stays on one input, the worker is killed.
+		t := time.NewTicker(500 * time.Millisecond)
+		defer t.Stop()
+		lastK := -1
+		cpuAtProgress := 0.0
+		for {
+			select {
+			case <-stop:
+				return
+			case <-t.C:
+				c := procCPU(cmd.Process.Pid)
+				if c < 0 {
+					continue
+				}
+				mu.Lock()
+				k := cur
+				mu.Unlock()
+				if k != lastK {
+					lastK, cpuAtProgress = k, c
+					continue
+				}
+				if c-cpuAtProgress > cpuCap {
+					mu.Lock()
+					killedForCPU = true
+					mu.Unlock()
+					syscall.Kill(-cmd.Process.Pid, syscall.SIGKILL)
+					return
+				}
+			}
+		}
+	}()
+	sc := bufio.NewScanner(stdout)
+	sc.Buffer(make([]byte, 1<<20), 1<<24)
+	done := false
+	for sc.Scan() {
+		ln := sc.Text()
+		switch {
+		case strings.HasPrefix(ln, "@ "):
+			k, _ := strconv.Atoi(ln[2:])
+			mu.Lock()
+			cur = k
+			mu.Unlock()
+		case strings.HasPrefix(ln, "P "):
+			rest := ln[2:]
+			sp := strings.IndexByte(rest, ' ')
+			k, _ := strconv.Atoi(rest[:sp])
+			var p c10Panic
+			json.Unmarshal([]byte(rest[sp+1:]), &p)
+			idx := shard + k*n
+			cls := "panic|" + p.Stage + "|" + errClass(p.Msg) + "|" + p.Frame
+			r.Distinct(cls)
+			r.Violate(explore.Violation{Key: "C10|" + cls,
+				Detail: fmt.Sprintf("recovered panic in %s: %s\ninnermost naga frame: %s\ninput: %s [%s #%d]", p.Stage, p.Msg, p.Frame, gen.Label(idx), gen.Name, idx),
+				Replay: map[string]any{"generator": gen.Name, "index": idx, "label": gen.Label(idx), "src": trunc(gen.At(idx), 70000), "stack": trunc(p.Stack, 6000)}})
+		case ln == "D":
+			done = true
+		}
+	}
+	cmd.Wait()
+	close(stop)
+	r.Distinct("clean")
+	if done {
+		return true, 0
+	}
+	mu.Lock()
+	k := cur
+	cpuKill := killedForCPU
+	mu.Unlock()
+	idx := shard + k*n
+	es := stderr.String()
+	var cls string
+	switch {
+	case cpuKill:
+		cls = "cpu-cap|" + gen.Label(idx)
+		if strings.HasPrefix(gen.Name, "tokens") || gen.Name == "token-edits" || gen.Name == "byte-edits" || gen.Name == "valid-programs" {
+			cls = "cpu-cap|" + gen.Name
+		}
+	case strings.Contains(es, "stack overflow"):
+		cls = "fatal|stack overflow|" + topNagaFrame(afterGoroutine(es))
+	case strings.Contains(es, "out of memory") || strings.Contains(es, "cannot allocate memory"):
+		cls = "fatal|out of memory|" + topNagaFrame(afterGoroutine(es))
+	default:
+		cls = "fatal|" + errClass(firstLine(es)) + "|" + topNagaFrame(afterGoroutine(es))
+	}
+	r.Distinct(cls)
+	r.Violate(explore.Violation{Key: "C10|" + cls,
+		Detail: fmt.Sprintf("worker died on input %s [%s #%d]: %s\ninnermost naga frame: %s", gen.Label(idx), gen.Name, idx, firstLine(es), topNagaFrame(afterGoroutine(es))),
+		Replay: map[string]any{"generator": gen.Name, "index": idx, "label": gen.Label(idx), "src": trunc(gen.At(idx), 70000), "stderr": trunc(es, 6000)}})
+	return false, k
+}
+
+func afterGoroutine(es string) string {
+	if i := strings.Index(es, "goroutine "); i >= 0 {
+		return es[i:]
+	}
+	return es
+}
+
+func firstLine(s string) string {
+	s = strings.TrimSpace(s)
+	if i := strings.IndexByte(s, '\n'); i >= 0 {
+		return s[:i]
+	}
+	return s
+}
+
+type limitedWriter struct {
+	buf *bytes.Buffer
+	max int
+	mu  sync.Mutex
+}
+
+func (l *limitedWriter) Write(p []byte) (int, error) {
+	l.mu.Lock()
+	defer l.mu.Unlock()
+	if l.buf.Len() < l.max {
+		k := l.max - l.buf.Len()
+		if k > len(p) {
+			k = len(p)
+		}
+		l.buf.Write(p[:k])
+	}
+	return len(p), nil
+}
